@@ -875,6 +875,62 @@ Definition check_scan (c : option N * bool * url_table * list event
                        | None, None => true
                        | _, _ => false end) finals.
 
+(** ** Operation sequences on the API: parse / edit a returned record through a public
+    setter / parse again / serialise.  The lists returned by different parses are
+    independent values; [from_bytes] has no state. *)
+Inductive api_op :=
+| ApiParse (b : bytes)                       (* AdvDataFieldList.from_bytes(b); an Ok result is kept as list #k *)
+| ApiSetName (i j : nat) (v : bytes)         (* lists[i][j].name = v      (the two name classes) *)
+| ApiSetCompany (i j : nat) (v : N)          (* lists[i][j].company = v   (manufacturer data) *)
+| ApiSetData (i j : nat) (v : bytes)         (* lists[i][j].data = v      (manufacturer data) *)
+| ApiSerialise (i : nat).                    (* lists[i].to_bytes() *)
+Inductive api_out := OutParse (o : outcome (list rec)) | OutNone | OutBytes (o : outcome bytes).
+
+Definition set_name (v : bytes) (r : rec) : rec :=
+  match r with ShortName _ => ShortName v | CompleteName _ => CompleteName v | _ => r end.
+Definition set_company (v : N) (r : rec) : rec := match r with Manuf _ d => Manuf v d | _ => r end.
+Definition set_data (v : bytes) (r : rec) : rec := match r with Manuf c _ => Manuf c v | _ => r end.
+Fixpoint upd_nth {A} (n : nat) (f : A -> A) (l : list A) : list A :=
+  match l, n with
+  | [], _ => []
+  | x :: r, O => f x :: r
+  | x :: r, S k => x :: upd_nth k f r
+  end.
+
+Definition api_step (urlnorm : text -> url_result) (st : list (list rec)) (op : api_op)
+  : list (list rec) * api_out :=
+  match op with
+  | ApiParse b => let o := from_bytes urlnorm b in
+                  (match o with Ok l => st ++ [l] | Raise _ => st end, OutParse o)
+  | ApiSetName i j v => (upd_nth i (upd_nth j (set_name v)) st, OutNone)
+  | ApiSetCompany i j v => (upd_nth i (upd_nth j (set_company v)) st, OutNone)
+  | ApiSetData i j v => (upd_nth i (upd_nth j (set_data v)) st, OutNone)
+  | ApiSerialise i => (st, OutBytes (to_bytes (nth i st [])))
+  end.
+Fixpoint api_run (urlnorm : text -> url_result) (st : list (list rec)) (ops : list api_op) : list api_out :=
+  match ops with
+  | [] => []
+  | op :: r => let '(st', o) := api_step urlnorm st op in o :: api_run urlnorm st' r
+  end.
+
+Inductive api_obs := AObsParse (o : obs_out (list obs)) | AObsNone | AObsBytes (o : obs_out bytes).
+Definition api_out_eqb (m : api_out) (o : api_obs) : bool :=
+  match m, o with
+  | OutParse a, AObsParse b => out_eqb (fun l lo => list_eqb obs_eqb (map canon l) lo) a b
+  | OutNone, AObsNone => true
+  | OutBytes a, AObsBytes b => out_eqb bytes_eqb a b
+  | _, _ => false
+  end.
+Fixpoint list_eqb2 {A B} (eq : A -> B -> bool) (a : list A) (b : list B) : bool :=
+  match a, b with
+  | [], [] => true
+  | x :: a', y :: b' => eq x y && list_eqb2 eq a' b'
+  | _, _ => false
+  end.
+(** api case: (recorded urlparse calls, operations, what the implementation returned for each) *)
+Definition check_api (c : url_table * list api_op * list api_obs) : bool :=
+  let '(tbl, ops, outs) := c in list_eqb2 api_out_eqb (api_run (lookup_url tbl) [] ops) outs.
+
 (** UTF-8 library cases: (bytes, CPython's decode result) and (code point, CPython's encode result) *)
 Definition opt_eqb (a b : option (list N)) : bool :=
   match a, b with Some x, Some y => bytes_eqb x y | None, None => true | _, _ => false end.
